@@ -126,7 +126,14 @@ fn util_clip(s: &str, n: usize) -> String {
 }
 
 fn dispatch(ctx: &Ctx) -> Outcome {
+    // wind down well before the driver's watchdog (900 s quick / 7200 s thorough) so that findings are reported, not lost
+    let soft = std::env::var("FDMON_SOFT_SECS").ok().and_then(|s| s.parse().ok()).unwrap_or(if ctx.quick() { 660 } else { 6300 });
+    util::set_soft_deadline(soft);
     let mut out = dispatch_inner(ctx);
+    let cut = out.report.get("shards_skipped_at_the_soft_deadline") + out.report.get("loops_cut_short_at_the_soft_deadline");
+    if cut > 0 {
+        out.floors.push(util::floor(&format!("the workload ran to its end within {} s (otherwise what was observed is reported, and the run is inconclusive)", soft), false, format!("{} shard(s) / loop(s) cut short", cut)));
+    }
     if ["C01", "C03", "C04", "C05", "C06", "C07", "C08", "C09", "C10", "C11", "C12", "C13", "C14", "C15", "C19"].contains(&ctx.prop.as_str()) && out.report.violations.is_empty() {
         let n = out.report.get("thread_exit_probes_ok");
         out.floors.push(util::floor("the group's small workload run from a thread-local destructor while a thread exits, in both orders of first use, equal to the same calls on an ordinary thread", n == 2, n));
